@@ -1,4 +1,475 @@
-/- C16 — model and specification (stub; see HACKING.md) -/
+/-
+  C16 — instruction objects expose the parameters the SHELXL syntax assigns.
+
+  MODEL (mirrors shelxfile/shelx/cards.py):
+    * `CardSlots` / `Slot` — the shape of a card class `__init__` as the translator (extract/tables_c16.py)
+      reads it off the AST: constant assignments before the `_parse_line` call (`defaults`), then, in source
+      order, `if len(p) > g: self.x = conv(p[j])` / `self.x = p[a:b]` / unguarded reads / late constants (`slots`).
+      The regenerated table is `Shelx.Extracted.slotTable` (ShelxModel/Extracted/C16Slots.lean).
+    * `defsSlots` — `Restraint._set_defs_values` (regenerated `defsTable`): runs inside `_parse_line`, i.e. after the
+      defaults and before the positional reads.
+    * `fill` — executes that statement list on a parameter list; attribute store = assoc list, a missing key is the
+      `AttributeError` Python raises when the attribute is read.
+    * hand-written residual classes (statements that do not fit the slot pattern): PART, SUMP, TWIN,
+      LATT, HTAB, LSCycles (with its `number` setter / `_as_str`), WGHT/PLAN printers for the setter round trip.
+  SPEC (code independent): `syntaxTable` (keyword -> ordered parameters, widths, kinds, defaults; SHELXL manual,
+    DESIGN.md Appendix A), `formLens` (legal parameter prefixes), `specVal` (value a parameter denotes in a form).
+-/
 namespace Shelx.C16
+
+/-! ## values -/
+
+inductive PyErr
+  | IndexError | AttributeError | ValueError | TypeError | ParseError
+deriving DecidableEq, Repr
+
+/-- an attribute value as far as the property observes it -/
+inductive Val
+  | none                        -- Python `None` ("not given")
+  | num (r : Rat)
+  | nums (l : List Rat)
+  | other (s : String)          -- a constant the property does not talk about (`True`, `''`, …)
+deriving DecidableEq, Repr
+
+/-- attribute store of one object; newest assignment first; a missing key = `AttributeError` on read -/
+abbrev Obj := List (String × Val)
+
+def Obj.get (o : Obj) (a : String) : Option Val := (o.find? (fun kv => kv.1 == a)).map (·.2)
+def Obj.set (o : Obj) (a : String) (v : Val) : Obj := (a, v) :: o
+
+/-! ## model: slot tables -/
+
+inductive Conv
+  | id | int                    -- `p[j]` / `float(p[j])`  vs  `int(p[j])`
+deriving DecidableEq, Repr
+
+inductive Src
+  | idx (j : Nat)                         -- `p[j]`
+  | slice (a : Nat) (b : Option Nat)      -- `p[a:b]` / `p[a:]`
+  | const (v : Val)                       -- `self.x = <literal>`
+  | defs (field : String) (mult : Rat)    -- `self.x = self.shx.defs.<field> [* mult]`
+deriving DecidableEq, Repr
+
+inductive Guard
+  | always
+  | gt (g : Nat)                -- `if len(p) > g:`
+  | defsPresent                 -- `if self.shx.defs:`
+deriving DecidableEq, Repr
+
+structure Slot where
+  attr : String
+  guard : Guard
+  src : Src
+  conv : Conv := .id
+deriving DecidableEq, Repr
+
+structure CardSlots where
+  name : String
+  base : String                 -- "Command" | "Restraint"
+  intnums : Bool                -- `_parse_line(spline, intnums=True)`
+  wordsAttr : Option String     -- attribute that receives the non-numeric tokens (`self.atoms`)
+  defaults : List (String × Val)
+  slots : List Slot
+  checks : Nat                  -- validation statements (`if …: raise/print`, `self._paircheck()`), not modelled
+deriving Repr
+
+structure DefsRule where
+  name : String
+  attr : String
+  field : String
+  mult : Rat
+deriving Repr
+
+/-- the environment one `__init__` runs in -/
+structure Env where
+  ps : List Rat                 -- numeric parameters, in file order
+  defs : Option Obj             -- the `shx.defs` object, if a DEFS instruction preceded
+deriving Repr
+
+def Guard.passes (e : Env) : Guard → Bool
+  | .always => true
+  | .gt g => decide (e.ps.length > g)
+  | .defsPresent => e.defs.isSome
+
+/-- Python `int(x)` on a float: truncation toward zero -/
+def pyInt (r : Rat) : Int := r.num.tdiv r.den
+
+def Conv.app : Conv → Val → Val
+  | .int, .num r => .num (pyInt r)
+  | _, v => v
+
+def pySlice (ps : List Rat) (a : Nat) (b : Option Nat) : List Rat :=
+  match b with
+  | some b => (ps.drop a).take (b - a)
+  | none => ps.drop a
+
+def readSrc (e : Env) : Src → Except PyErr Val
+  | .idx j => match e.ps[j]? with
+    | some r => .ok (.num r)
+    | none => .error .IndexError
+  | .slice a b => .ok (.nums (pySlice e.ps a b))
+  | .const v => .ok v
+  | .defs f m => match e.defs with
+    | none => .error .AttributeError
+    | some d => match d.get f with
+      | some (.num r) => .ok (.num (r * m))
+      | some _ => .error .TypeError
+      | none => .error .AttributeError
+
+def stepSlot (e : Env) (o : Obj) (s : Slot) : Except PyErr Obj :=
+  if s.guard.passes e then
+    match readSrc e s.src with
+    | .ok v => .ok (o.set s.attr (s.conv.app v))
+    | .error x => .error x
+  else .ok o
+
+def run (e : Env) : List Slot → Obj → Except PyErr Obj
+  | [], o => .ok o
+  | s :: t, o => match stepSlot e o s with
+    | .ok o' => run e t o'
+    | .error x => .error x
+
+def defsSlots (rules : List DefsRule) (name : String) : List Slot :=
+  (rules.filter (fun r => r.name == name)).map fun r => ⟨r.attr, .defsPresent, .defs r.field r.mult, .id⟩
+
+/-- the statement list of one `__init__`, in execution order -/
+def stmtsOf (rules : List DefsRule) (c : CardSlots) : List Slot :=
+  c.defaults.map (fun kv => ⟨kv.1, .always, .const kv.2, .id⟩)
+    ++ (if c.base == "Restraint" then defsSlots rules c.name else [])
+    ++ c.slots
+
+def isInt (r : Rat) : Bool := r.den == 1
+
+/-- `Class(shx, spline)` for a table-shaped class -/
+def fill (rules : List DefsRule) (c : CardSlots) (e : Env) : Except PyErr Obj :=
+  if c.intnums && !(e.ps.all isInt) then .error .ValueError     -- `int('1.5')`
+  else run e (stmtsOf rules c) []
+
+/-! ## specification: the SHELXL syntax table -/
+
+inductive Kind
+  | real | int
+deriving DecidableEq, Repr
+
+inductive Dflt
+  | req                                   -- mandatory
+  | notGiven                              -- `[#]`
+  | const (v : Val)                       -- `[d]`
+  | defs (field : String) (mult : Rat)    -- `mult ×` the DEFS value of `field` (documented default when no DEFS)
+deriving DecidableEq, Repr
+
+structure Param where
+  doc : String                  -- name in the SHELXL manual
+  attr : String                 -- attribute of the library object that exposes it
+  width : Nat := 1              -- 1: scalar; n > 1: n consecutive values exposed as one list; 0: all remaining values
+  kind : Kind := .real
+  dflt : Dflt := .req
+deriving DecidableEq, Repr
+
+structure Syntax where
+  kw : String
+  cls : String                  -- class of the library that is built for it
+  params : List Param
+  names : Bool := false         -- atom names follow the numbers
+deriving Repr
+
+/-- documented defaults of `DEFS sd[0.02] sf[0.1] su[0.01] ss[0.04] maxsof[1]` -/
+def defsDoc : String → Rat
+  | "sd" => 0.02 | "sf" => 0.1 | "su" => 0.01 | "ss" => 0.04 | "maxsof" => 1 | _ => 0
+
+def rq (doc attr : String) (kind : Kind := .real) : Param := ⟨doc, attr, 1, kind, .req⟩
+def ng (doc attr : String) (kind : Kind := .real) : Param := ⟨doc, attr, 1, kind, .notGiven⟩
+def df (doc attr : String) (d : Rat) (kind : Kind := .real) : Param := ⟨doc, attr, 1, kind, .const (.num d)⟩
+def dd (doc attr field : String) (m : Rat := 1) : Param := ⟨doc, attr, 1, .real, .defs field m⟩
+
+/-- Keyword -> ordered parameters. Source: SHELXL manual / the syntax summary in DESIGN.md Appendix A.
+    `attr` is the public attribute name of the library object (the `attrMap`). -/
+def syntaxTable : List Syntax := [
+  ⟨"ABIN", "ABIN", [ng "n1" "n1", ng "n2" "n2"], false⟩,
+  ⟨"AFIX", "AFIX", [rq "mn" "mn" .int, ng "d" "d", df "sof" "sof" 11, df "U" "U" 10.08], false⟩,
+  ⟨"BLOC", "BLOC", [ng "n1" "n1", ng "n2" "n2"], true⟩,
+  ⟨"CELL", "CELL", [rq "lambda" "wavelen", rq "a" "a", rq "b" "b", rq "c" "c", rq "alpha" "alpha",
+                    rq "beta" "beta", rq "gamma" "gamma"], false⟩,
+  ⟨"ZERR", "ZERR", [rq "Z" "Z", rq "esd(a)" "esd_a", rq "esd(b)" "esd_b", rq "esd(c)" "esd_c",
+                    rq "esd(alpha)" "esd_al", rq "esd(beta)" "esd_be", rq "esd(gamma)" "esd_ga"], false⟩,
+  ⟨"FMAP", "FMAP", [df "code" "code" 2, ng "axis" "axis", df "nl" "nl" 53], false⟩,
+  ⟨"GRID", "GRID", [ng "sl" "sl", ng "sa" "sa", ng "sd" "sd", ng "dl" "dl", ng "da" "da", ng "dd" "dd"], false⟩,
+  ⟨"HKLF", "HKLF", [df "N" "n" 0 .int, df "S" "s" 1,
+                    ⟨"r11...r33", "matrix", 9, .real, .const (.nums [1, 0, 0, 0, 1, 0, 0, 0, 1])⟩,
+                    df "sm" "sm" 1, df "m" "m" 0], false⟩,
+  ⟨"MERG", "MERG", [df "n" "n" 2], false⟩,
+  ⟨"MORE", "MORE", [df "m" "m" 1 .int], false⟩,
+  ⟨"MOVE", "MOVE", [⟨"dx dy dz", "dxdydz", 3, .real, .const (.nums [0, 0, 0])⟩, df "sign" "sign" 1], false⟩,
+  ⟨"MPLA", "MPLA", [ng "na" "na" .int], true⟩,
+  ⟨"PLAN", "PLAN", [df "npeaks" "npeaks" 20 .int, ng "d1" "d1", ng "d2" "d2"], false⟩,
+  ⟨"PRIG", "PRIG", [ng "p" "p"], false⟩,
+  ⟨"SHEL", "SHEL", [ng "lowres" "lowres", df "highres" "highres" 0], false⟩,       -- lowres[infinite]: "not given"
+  ⟨"SIZE", "SIZE", [rq "dx" "dx", rq "dy" "dy", rq "dz" "dz"], false⟩,
+  ⟨"SPEC", "SPEC", [df "del" "d" 0.2], false⟩,
+  ⟨"STIR", "STIR", [rq "sres" "sres", df "step" "step" 0.01], false⟩,
+  ⟨"TWST", "TWST", [df "N" "N" 1], false⟩,                                          -- N[1] since SHELXL-2018/3
+  ⟨"WGHT", "WGHT", [df "a" "a" 0.1, df "b" "b" 0, df "c" "c" 0, df "d" "d" 0, df "e" "e" 0, df "f" "f" 0.33333], false⟩,
+  ⟨"WIGL", "WIGL", [df "del" "d" 0.2, df "dU" "dU" 0.2], false⟩,
+  ⟨"WPDB", "WPDB", [df "n" "n" 1], false⟩,
+  ⟨"XNPD", "XNPD", [df "Umin" "Umin" (-0.001)], false⟩,
+  -- restraints
+  ⟨"DEFS", "DEFS", [df "sd" "sd" 0.02, df "sf" "sf" 0.1, df "su" "su" 0.01, df "ss" "ss" 0.04, df "maxsof" "maxsof" 1], false⟩,
+  ⟨"DFIX", "DFIX", [rq "d" "d", dd "s" "s" "sd"], true⟩,
+  ⟨"DANG", "DANG", [rq "d" "d", dd "s" "s" "sd" 2], true⟩,
+  ⟨"SADI", "SADI", [dd "s" "s" "sd"], true⟩,
+  ⟨"SAME", "SAME", [dd "s1" "s1" "sd", dd "s2" "s2" "sd" 2], true⟩,
+  ⟨"FLAT", "FLAT", [dd "s" "s" "sf"], true⟩,
+  ⟨"CHIV", "CHIV", [df "V" "V" 0, dd "s" "s" "sf"], true⟩,
+  ⟨"DELU", "DELU", [dd "s1" "s1" "su", dd "s2" "s2" "su"], true⟩,
+  ⟨"SIMU", "SIMU", [dd "s" "s" "ss", dd "st" "st" "ss" 2, df "dmax" "dmax" 2], true⟩,
+  ⟨"RIGU", "RIGU", [df "s1" "s1" 0.004, df "s2" "s2" 0.004], true⟩,
+  ⟨"ISOR", "ISOR", [df "s" "s" 0.1, df "st" "st" 0.2], true⟩,
+  ⟨"NCSY", "NCSY", [rq "DN" "DN", df "sd" "sd" 0.1, df "su" "su" 0.05], true⟩,
+  ⟨"BUMP", "BUMP", [df "s" "s" 0.02], false⟩,
+  ⟨"EADP", "EADP", [], true⟩,
+  ⟨"EXYZ", "EXYZ", [], true⟩,
+  ⟨"BOND", "BOND", [], true⟩,
+  ⟨"DAMP", "DAMP", [df "damp" "damp" 0.7, df "limse" "limse" 15], false⟩,
+  ⟨"SWAT", "SWAT", [df "g" "g" 0, df "U" "U" 2], false⟩,
+  -- classes whose constructor is not table shaped (hand-written models below)
+  ⟨"PART", "PART", [rq "n" "n" .int, df "sof" "sof" 11], false⟩,
+  ⟨"LATT", "LATT", [df "N" "N" 1 .int], false⟩,
+  ⟨"TWIN", "TWIN", [⟨"r11...r33", "matrix", 9, .real, .const (.nums [-1, 0, 0, 0, -1, 0, 0, 0, -1])⟩,
+                    df "N" "n_value" 2 .int], false⟩,
+  ⟨"HTAB", "HTAB", [df "dh" "dh" 2], false⟩,
+  ⟨"L.S.", "LSCycles", [rq "nls" "number" .int, df "nrf" "_nrf" 0 .int, df "nextra" "_nextra" 0 .int], false⟩,
+  ⟨"CGLS", "LSCycles", [rq "nls" "number" .int, df "nrf" "_nrf" 0 .int, df "nextra" "_nextra" 0 .int], false⟩,
+  ⟨"SUMP", "SUMP", [rq "c" "c", rq "sigma" "sigma", ⟨"c1 m1 ...", "fvars", 0, .real, .req⟩], false⟩,
+  ⟨"BASF", "BASF", [⟨"k ...", "scale_factors", 0, .real, .req⟩], false⟩,
+  ⟨"UNIT", "UNIT", [⟨"n ...", "values", 0, .real, .req⟩], false⟩,
+  ⟨"HFIX", "HFIX", [⟨"mn U d", "params", 0, .real, .req⟩], true⟩,
+  ⟨"ACTA", "ACTA", [⟨"2theta", "twotheta", 0, .real, .req⟩], false⟩
+]
+
+def syntaxOf (kw : String) : Option Syntax := syntaxTable.find? (fun s => s.kw == kw)
+
+/-- value positions of the parameters: (parameter, index of its first value) -/
+def positionsFrom : Nat → List Param → List (Param × Nat)
+  | _, [] => []
+  | k, p :: t => (p, k) :: positionsFrom (k + p.width) t
+
+def Syntax.positions (sp : Syntax) : List (Param × Nat) := positionsFrom 0 sp.params
+
+def Syntax.finite (sp : Syntax) : Bool := sp.params.all (fun p => p.width ≥ 1)
+
+/-- the legal numbers of numeric values: a form ends after a mandatory parameter that is the last mandatory one,
+    or after any optional one; the empty form is legal iff there is no mandatory parameter -/
+def formLens (sp : Syntax) : List Nat :=
+  let ends := sp.positions.map (fun pk => (pk.1, pk.2 + pk.1.width))
+  let nreq := (sp.params.filter (fun p => p.dflt == .req)).length
+  let minLen := ((ends.take nreq).map (·.2)).foldl max 0
+  (if nreq == 0 then [0] else []) ++ ((ends.filter (fun pe => pe.2 ≥ minLen)).map (·.2))
+
+inductive SpecVal
+  | given (v : Val)
+  | omitted (dflt : Val)        -- the object must report `dflt` or "not given" (`None`)
+deriving DecidableEq, Repr
+
+def dfltVal (eff : String → Rat) : Dflt → Val
+  | .req => .none
+  | .notGiven => .none
+  | .const v => v
+  | .defs f m => .num (eff f * m)
+
+/-- what parameter `P` (first value at `pos`) denotes in the line with numeric values `ps` -/
+def specVal (eff : String → Rat) (P : Param) (pos : Nat) (ps : List Rat) : SpecVal :=
+  if P.width == 0 then .given (.nums (ps.drop pos))
+  else if pos + P.width ≤ ps.length then
+    (if P.width == 1 then match ps[pos]? with
+      | some r => .given (.num r)
+      | none => .omitted .none
+     else .given (.nums ((ps.drop pos).take P.width)))
+  else .omitted (dfltVal eff P.dflt)
+
+/-- does the observed attribute (`none` = attribute missing) satisfy the property? -/
+def accepts (got : Option Val) : SpecVal → Bool
+  | .given v => got == some v
+  | .omitted d => got == some d || got == some .none
+
+/-- effective DEFS values: those of the DEFS line `qs` if there is one, else the documented ones -/
+def effDefs (qs : Option (List Rat)) (f : String) : Rat :=
+  match qs with
+  | none => defsDoc f
+  | some qs =>
+    let i := match f with | "sd" => 0 | "sf" => 1 | "su" => 2 | "ss" => 3 | _ => 4
+    match qs[i]? with
+    | some r => r
+    | none => defsDoc f
+
+/-- the integer-kind parameters carry integers -/
+def intsOK (sp : Syntax) (ps : List Rat) : Bool :=
+  sp.positions.all fun pk => pk.1.kind != .int || ((ps.drop pk.2).take (max pk.1.width 1)).all isInt
+
+/-! ## conformance of a slot table to a syntax entry (decidable; evaluated on the regenerated table) -/
+
+/-- guard decision of a slot for `n` numeric values -/
+def Guard.passesN (n : Nat) (hasDefs : Bool) : Guard → Bool
+  | .always => true
+  | .gt g => decide (n > g)
+  | .defsPresent => hasDefs
+
+def defsFields : List String := ["sd", "sf", "su", "ss", "maxsof"]
+
+/-- `p[j]` is only read when it exists; `shx.defs.<field>` only when there is a DEFS object and the field is one of its five -/
+def Src.safeN (n : Nat) (hasDefs : Bool) : Src → Bool
+  | .idx j => decide (j < n)
+  | .defs f _ => hasDefs && defsFields.contains f
+  | _ => true
+
+/-- the assignment that determines attribute `a` for `n` values: the last one whose guard passes -/
+def winner (stmts : List Slot) (n : Nat) (hasDefs : Bool) (a : String) : Option Slot :=
+  stmts.reverse.find? (fun s => s.attr == a && s.guard.passesN n hasDefs)
+
+def defaultOK (P : Param) (hasDefs : Bool) (s : Slot) : Bool :=
+  match s.src, P.dflt with
+  | .const v, .const d => v == d || v == .none
+  | .const v, .notGiven => v == .none
+  | .const v, .defs f m => !hasDefs && (v == .num (defsDoc f * m))
+  | .defs f' m', .defs f m => hasDefs && f' == f && m' == m
+  | _, _ => false
+
+def winnerOK (P : Param) (pos n : Nat) (hasDefs : Bool) (w : Option Slot) : Bool :=
+  match w with
+  | none => false
+  | some s =>
+    if pos + P.width ≤ n then
+      (if P.width == 1 then s.src == .idx pos
+       else s.src == .slice pos (some (pos + P.width)) || (s.src == .slice pos none && n == pos + P.width))
+      && (s.conv == .id || P.kind == .int)
+    else defaultOK P hasDefs s && s.conv == .id
+
+/-- a table-shaped class conforms to a syntax entry: in every legal form, with and without DEFS, no `p[j]` is read
+    that does not exist, and every parameter's attribute is decided by the read at its own position (given) or by
+    its documented default / `None` (omitted) -/
+def conforms (rules : List DefsRule) (c : CardSlots) (sp : Syntax) : Bool :=
+  let stmts := stmtsOf rules c
+  sp.finite && (!c.intnums || sp.params.all (fun p => p.kind == .int)) &&
+  (formLens sp).all fun n => [false, true].all fun hd =>
+    (stmts.all fun s => !s.guard.passesN n hd || s.src.safeN n hd) &&
+    (sp.positions.all fun pk => winnerOK pk.1 pk.2 n hd (winner stmts n hd pk.1.attr))
+
+/-- the first place where `conforms` fails: (form length, DEFS present, attribute or "index:<attr>") — the recipe
+    for the failing input -/
+def firstMismatch (rules : List DefsRule) (c : CardSlots) (sp : Syntax) : Option (Nat × Bool × String) :=
+  let stmts := stmtsOf rules c
+  ((formLens sp).flatMap fun n => [false, true].flatMap fun hd =>
+    ((stmts.filter fun s => s.guard.passesN n hd && !s.src.safeN n hd).map fun s => (n, hd, "index:" ++ s.attr)) ++
+    ((sp.positions.filter fun pk => !winnerOK pk.1 pk.2 n hd (winner stmts n hd pk.1.attr)).map fun pk => (n, hd, pk.1.attr))).head?
+
+/-! ## tokens: numbers first, then names -/
+
+inductive Tok
+  | num (r : Rat)
+  | word (s : String)
+deriving DecidableEq, Repr
+
+/-- `_parse_line`: numeric tokens go to the parameter list, the others to the word list, order kept -/
+def parseLine (ts : List Tok) : List Rat × List String :=
+  (ts.filterMap (fun t => match t with | .num r => some r | .word _ => none),
+   ts.filterMap (fun t => match t with | .word s => some s | .num _ => none))
+
+/-! ## hand-written models of the classes that are not table shaped -/
+
+/-- `PART.__init__`: `n = int(p[0])` under try/except IndexError -> 0; `sof = float(p[1])` if present -/
+def partModel (ps : List Rat) : Obj :=
+  let o : Obj := [("n", .num 0), ("sof", .num 11)]
+  let o := match ps[0]? with | some r => o.set "n" (.num (pyInt r)) | none => o
+  match ps[1]? with | some r => o.set "sof" (.num r) | none => o
+
+/-- `LATT.__init__`: `N = int(p[0])`, a bare LATT is the documented N = 1 -/
+def lattModel (ps : List Rat) : Obj :=
+  match ps[0]? with
+  | some r => [("N", .num (pyInt r))]
+  | none => [("N", .num 1)]
+
+/-- `TWIN.__init__`: bare -> defaults; 9 values -> matrix; 10 -> matrix + N; anything else ParseNumError -/
+def twinModel (ps : List Rat) : Except PyErr Obj :=
+  let o : Obj := [("matrix", .nums [-1, 0, 0, 0, -1, 0, 0, 0, -1]), ("n_value", .num 2)]
+  if ps.length == 0 then .ok o
+  else if ps.length == 9 then .ok (o.set "matrix" (.nums ps))
+  else if ps.length == 10 then
+    match ps[9]? with
+    | some r => .ok ((o.set "matrix" (.nums (ps.take 9))).set "n_value" (.num (pyInt r)))
+    | none => .error .IndexError
+  else .error .ParseError
+
+/-- `HTAB.__init__`: `if dh: self.dh = dh[0]` -/
+def htabModel (ps : List Rat) : Obj :=
+  match ps[0]? with | some r => [("dh", .num r)] | none => [("dh", .none)]
+
+/-- `SUMP.__init__`: c, sigma popped, the rest paired (the harness flattens the pairs) -/
+def sumpModel (ps : List Rat) : Except PyErr Obj :=
+  match ps with
+  | c :: s :: rest =>
+    -- zip(p[0::2], p[1::2]): an unpaired last value is dropped; fvar numbers go through int()
+    let rec pairs : List Rat → List Rat
+      | a :: b :: t => a :: (pyInt b : Rat) :: pairs t
+      | _ => []
+    .ok [("c", .num c), ("sigma", .num s), ("fvars", .nums (pairs rest))]
+  | _ => .error .IndexError
+
+/-! ### LSCycles and the setter round trip -/
+
+structure LS where
+  cgls : Bool
+  cycles : Int
+  nrf : Option Int              -- `''` when not given
+  nextra : Option Int
+deriving DecidableEq, Repr
+
+/-- `LSCycles.__init__` on integer parameters -/
+def lsInit (cgls : Bool) (ps : List Int) : Except PyErr LS :=
+  match ps with
+  | [] => .error .ParseError
+  | c :: t => .ok ⟨cgls, c, t[0]?, t[1]?⟩
+
+/-- `LSCycles._as_str` as repaired: a parameter is printed when it is given; `nrf` is also printed (as 0) when only
+    `nextra` is given -/
+def lsTokens (l : LS) : List Int :=
+  l.cycles :: (match l.nrf, l.nextra with
+    | some a, some b => [a, b]
+    | some a, none => [a]
+    | none, some b => [0, b]
+    | none, none => [])
+
+/-- `LSCycles.number = n`: `_cycles = n`, then `__init__(self._as_str().split())` -/
+def lsSetNumber (l : LS) (n : Int) : Except PyErr LS := lsInit l.cgls (lsTokens { l with cycles := n })
+
+/-- what an L.S. token list denotes (spec): nls, nrf[0], nextra[0] -/
+def lsDenotes (ts : List Int) : Option (Int × Int × Int) :=
+  match ts with
+  | [a] => some (a, 0, 0)
+  | [a, b] => some (a, b, 0)
+  | [a, b, c] => some (a, b, c)
+  | _ => none
+
+def LS.denotes (l : LS) : Int × Int × Int := (l.cycles, l.nrf.getD 0, l.nextra.getD 0)
+
+/-- `Shelxfile.update_weight` copies the six fields; `WGHT._as_string` prints a, b and — unless c, d, e, f all
+    have their defaults — c d e f. The printed tokens denote (a,b,c,d,e,f) with the documented defaults for omitted ones. -/
+structure W where
+  a : Rat
+  b : Rat
+  c : Rat
+  d : Rat
+  e : Rat
+  f : Rat
+deriving DecidableEq, Repr
+
+def wghtTokens (w : W) : List Rat :=
+  if (w.c, w.d, w.e, w.f) ≠ ((0 : Rat), (0 : Rat), (0 : Rat), (0.33333 : Rat)) then [w.a, w.b, w.c, w.d, w.e, w.f] else [w.a, w.b]
+
+def wghtDenotes (ts : List Rat) : Option W :=
+  match ts with
+  | [a, b] => some ⟨a, b, 0, 0, 0, 0.33333⟩
+  | [a, b, c, d, e, f] => some ⟨a, b, c, d, e, f⟩
+  | _ => none
+
+def updateWeight (_cur sug : W) : W := ⟨sug.a, sug.b, sug.c, sug.d, sug.e, sug.f⟩
 
 end Shelx.C16
